@@ -82,7 +82,9 @@ ASSUME_COMMON = [
 # base case of every 'after any number of iterations' / 'at every moment' property of this group: a freshly constructed
 # solver satisfies the pre-condition of its first Solve / DoGlobalIteration
 ESTABLISH = ["Solver.__init__", "SearchData.__init__", "Method.__init__", "Process.__init__", "OptimizationTask.__init__",
-             "Solution.__init__"]
+             "Solution.__init__",
+             # the public API layer: the entry points users call are exactly the Process operations
+             "Solver.Solve", "Solver.DoGlobalIteration", "Solver.DoLocalRefinement", "Solver.GetResults"]
 
 
 # clauses that only some properties state (regular expressions over the clause text of an obligation).  Everything else
